@@ -176,6 +176,17 @@ class C15(Check):
                                 if env.quick and n == 3 and (i // env.nshards) % 3:
                                     continue
                                 yield {"calls": list(kinds), "fault_at": pos, "fault": fault, "k": k, "end": end, "filter": "copy" if i % 2 else "lzma2"}
+        # zero-length sources that cannot be opened
+        for n in (1, 2):
+            for kinds in itertools.product(["write", "writestr"], repeat=n):
+                for pos in range(n):
+                    if kinds[pos] != "write":
+                        continue
+                    for fault in ("open-EACCES", "open-EIO"):
+                        for end in ("with", "close"):
+                            i += 1
+                            if env.mine(i):
+                                yield {"calls": list(kinds), "fault_at": pos, "fault": fault, "k": 0, "end": end, "filter": "copy" if i % 2 else "lzma2", "empty_src": True}
         # sources failing midway while every other member has CRC-32 0 (empty or forged contents)
         for n in (2, 3):
             for kinds in itertools.product(["writestr", "writef", "write"], repeat=n):
@@ -225,6 +236,8 @@ class C15(Check):
             for i, c in enumerate(calls):
                 big = midread and i == pos
                 data = content(i, big, case.get("crc0", False))
+                if i == pos and case.get("empty_src"):
+                    data = b""  # a zero-length source: its failure to open must be reported like any other
                 name = "m%d.bin" % i
                 if c == "write":
                     p = os.path.join(src, "f%d.bin" % i)
